@@ -40,6 +40,7 @@ public:
     Wire* in; Wire* out;             // in: we read from it; out: we write to it
     uint64_t tmo = -1ULL;
     bool closed = false;
+    bool rd_shut = false;            // shutdown(Read): like a socket, every later read reports end of stream
     uint64_t n_recv_calls = 0, n_send_calls = 0;
     Endpoint(Wire* i, Wire* o) : in(i), out(o) {}
 
@@ -47,6 +48,7 @@ public:
     ssize_t do_recv(void* buf, size_t count, bool full) {
         n_recv_calls++;
         if (closed) { errno = EBADF; return -1; }
+        if (rd_shut) return 0;
         photon::Timeout deadline(tmo);
         size_t got = 0;
         while (got < count) {
@@ -59,6 +61,7 @@ public:
                 if (in->reset_errno && in->total_read >= in->reset_at) continue;
                 if (got && !full) break;
                 int r = in->readable.wait_no_lock(deadline);
+                if (rd_shut) break;
                 if (r < 0 && errno == ETIMEDOUT) { if (got) break; return -1; }
                 continue;
             }
@@ -143,6 +146,7 @@ public:
 
     int shutdown(ShutdownHow how) override {
         if (how == ShutdownHow::Write || how == ShutdownHow::ReadWrite) { out->eof = true; out->readable.notify_all(); }
+        if (how == ShutdownHow::Read || how == ShutdownHow::ReadWrite) { rd_shut = true; in->readable.notify_all(); }
         return 0;
     }
     int close() override {
